@@ -46,7 +46,8 @@ func drawRequestBothWays(rt *rapid.T, own, rem *lmodel, peerOpened []protocol.ID
 		}
 	}
 	n := rapid.IntRange(1, 3).Draw(rt, "nreq")
-	var req []protocol.ID
+	req := drawWithdrawnFirst(rt, rem)
+	n = max(n, len(req))
 	for len(req) < n {
 		var id protocol.ID
 		switch c := rapid.IntRange(0, 7).Draw(rt, "reqclass"); {
@@ -72,6 +73,22 @@ func drawRequestBothWays(rt *rapid.T, own, rem *lmodel, peerOpened []protocol.ID
 	return req
 }
 
+// drawWithdrawnFirst starts, in 1/3 of the draws in which the remote host has withdrawn
+// something, a request with an ID the remote host announced or accepted earlier and neither
+// announces nor accepts now, followed by one it accepts now (if there is one): the request of an
+// application that prefers the protocol the remote has just stopped serving.
+func drawWithdrawnFirst(rt *rapid.T, rem *lmodel) []protocol.ID {
+	gone := rem.withdrawn()
+	if len(gone) == 0 || rapid.IntRange(0, 2).Draw(rt, "withdrawn-first") != 0 {
+		return nil
+	}
+	req := []protocol.ID{rapid.SampledFrom(gone).Draw(rt, "req-withdrawn")}
+	if acc := rem.acceptedSet(); len(acc) > 0 {
+		req = append(req, rapid.SampledFrom(acc).Draw(rt, "req-acc")) // disjoint from gone by definition
+	}
+	return req
+}
+
 func drawBothWays(rt *rapid.T) *scenario {
 	sc := &scenario{Key: rapid.Uint64().Draw(rt, "key")}
 	switch p := rapid.IntRange(0, 9).Draw(rt, "pair"); {
@@ -82,7 +99,7 @@ func drawBothWays(rt *rapid.T) *scenario {
 	default:
 		sc.Dialer, sc.Listener = "blank", "basic"
 	}
-	sc.Limited = rapid.IntRange(0, 3).Draw(rt, "limited") == 0
+	drawConn(rt, sc)
 	models := [2]*lmodel{newModel(), newModel()} // 0 = connection dialer, 1 = connection listener
 	hostName := [2]string{"D", ""}
 	// asymmetric handler sets: drawn independently for the two hosts
@@ -153,11 +170,7 @@ func TestBothDirections(t *testing.T) {
 		hx.Bubble(t, rt, func() {
 			oc = runScenario(rt, sc)
 		})
-		conn := "conn:direct"
-		if sc.Limited {
-			conn = "conn:limited"
-		}
-		stats.Case(name, sc.fingerprint(), oc.nontrivial, sortedLabels(oc.labels, "pair:"+sc.Dialer+"->"+sc.Listener, conn)...)
+		stats.Case(name, sc.fingerprint(), oc.nontrivial, sortedLabels(oc.labels, "pair:"+sc.Dialer+"->"+sc.Listener, connLabel(sc))...)
 		if stats.WantSample(name) {
 			stats.Sample(name, map[string]any{"scenario": sc, "trace": oc.trace})
 		}
@@ -193,7 +206,7 @@ func TestBothDirectionsSmall(t *testing.T) {
 								if !hx.Mine(idx) {
 									continue
 								}
-								sc := &scenario{Dialer: pr[0], Listener: pr[1], Limited: idx%7 == 0, Key: uint64(idx)}
+								sc := &scenario{Dialer: pr[0], Listener: pr[1], Limited: idx%7 == 0, Relay: idx%21 == 0, Key: uint64(idx)}
 								for _, id := range dset {
 									sc.InitD = append(sc.InitD, lop{Op: "set", Pid: id, Host: "D"})
 								}
@@ -228,11 +241,80 @@ func TestBothDirectionsSmall(t *testing.T) {
 								if oc == nil {
 									t.Fatalf("scenario %s failed", sc.fingerprint())
 								}
-								stats.CaseEnumerated(name, oc.nontrivial, sortedLabels(oc.labels, "pair:"+pr[0]+"->"+pr[1],
+								stats.CaseEnumerated(name, oc.nontrivial, sortedLabels(oc.labels, "pair:"+pr[0]+"->"+pr[1], connLabel(sc),
 									fmt.Sprintf("handlers:D%d/L%d", di, li), fmt.Sprintf("push-between-opens:%v", push == 1))...)
 								if stats.WantSample(name) {
 									stats.Sample(name, map[string]any{"scenario": sc, "trace": oc.trace})
 								}
+							}
+						}
+					}
+				}
+			}
+		}
+	}
+	stats.Exhaustive(name)
+}
+
+// TestWithdrawnSmall enumerates a small domain of the "handler removed, the peer is told"
+// dimension completely (a seed independent floor): every connection kind (direct, limited =
+// flagged direct pipe, limited = through a relay host) x which host serves and which opens x
+// the registration that is withdrawn (exact X | a path matcher named /a through which the
+// opener negotiated X) x {nothing, a new handler Z} installed in its place x every kind of
+// first operation x {opens after the pushes have settled, opens with the pushes in flight}.
+// Two BasicHosts, the harness writes no knowledge. History: responder serves X and Y; the
+// opener opens [X] (works, so it knows X); the responder withdraws X; the opener opens [X, Y]
+// (with the generated first operation; tolerated to fail on first use only when the pushes are
+// still in flight); at quiescence it opens [X, Y] once more: that open must reach Y's handler.
+func TestWithdrawnSmall(t *testing.T) {
+	name := t.Name()
+	const X, Y, Z = protocol.ID("/a/1.0.0"), protocol.ID("/b"), protocol.ID("/ab")
+	type connKind struct{ limited, relay bool }
+	conns := []connKind{{false, false}, {true, false}, {true, true}}
+	served := []lop{{Op: "set", Pid: X}, {Op: "match", Pid: "/a", Kind: "path"}}
+	idx := 0
+	for _, ck := range conns {
+		for responder := 0; responder < 2; responder++ { // 0: the connection's listener serves, its dialer opens
+			for si, reg := range served {
+				for replace := 0; replace < 2; replace++ {
+					for _, use := range useKinds {
+						for noSettle := 0; noSettle < 2; noSettle++ {
+							idx++
+							if !hx.Mine(idx) {
+								continue
+							}
+							host, opener := "", ""
+							if responder == 1 {
+								host, opener = "D", "L"
+							}
+							at := func(op lop) lop { op.Host = host; return op }
+							sc := &scenario{Dialer: "basic", Listener: "basic", Limited: ck.limited, Relay: ck.relay, Key: uint64(idx)}
+							init := []lop{at(reg), at(lop{Op: "set", Pid: Y})}
+							if responder == 1 {
+								sc.InitD = init
+							} else {
+								sc.Init = init
+							}
+							ops := []lop{at(lop{Op: "remove", Pid: reg.Pid})}
+							if replace == 1 {
+								ops = append(ops, at(lop{Op: "set", Pid: Z}))
+							}
+							sc.Rounds = []round{
+								{KnowMode: "keep", Opener: opener, Opens: []openSpec{{Req: []protocol.ID{X}, Use: useWrite, nonce: mix(uint64(idx)*8 + 1)}}},
+								{KnowMode: "keep", Opener: opener, Ops: ops, NoSettle: noSettle == 1, Opens: []openSpec{{Req: []protocol.ID{X, Y}, Use: use, nonce: mix(uint64(idx)*8 + 2)}}},
+								{KnowMode: "keep", Opener: opener, Opens: []openSpec{{Req: []protocol.ID{X, Y}, Use: useWrite, nonce: mix(uint64(idx)*8 + 3)}}},
+							}
+							var oc *outcome
+							synctest.Test(t, func(t *testing.T) {
+								oc = runScenario(t, sc)
+							})
+							if oc == nil {
+								t.Fatalf("scenario %s failed", sc.fingerprint())
+							}
+							stats.CaseEnumerated(name, oc.nontrivial, sortedLabels(oc.labels, connLabel(sc), fmt.Sprintf("withdrawn-registration:%d", si),
+								fmt.Sprintf("replaced:%v", replace == 1), "responder:"+map[int]string{0: "conn-listener", 1: "conn-dialer"}[responder])...)
+							if stats.WantSample(name) {
+								stats.Sample(name, map[string]any{"scenario": sc, "trace": oc.trace})
 							}
 						}
 					}
